@@ -279,6 +279,207 @@ def field_matrix(full_product=False):
     return out
 
 
+# --------------------------------------------------------------- keys harvested from the source (round 6)
+# The field matrix above knows the keys the code read when it was written.  `harvested_key_cases` takes the
+# vocabulary from the source under test (harness/gen/keyharvest.py) and puts values of every bencodable type
+# under every harvested key at every level a reader can look at (top level, `info`, a file entry), in torrents
+# in which the *other* keys are present or absent: the four valid layouts and each of them with one required
+# key removed (`pieces`, `name`, `piece length`, `length` / `files`, a file's `length` / `path`, `info`).
+
+# one value per bencodable type and shape a comparison / conversion / method call distinguishes
+KEY_VALUES_CORE = [2, -1, 10 ** 30, b'2', b'\xff2', [2], {b'major': 2}, b'']
+KEY_VALUES_MORE = [0, 1, 2 ** 63, -2 ** 1024, b'x', b' 2 ', '\xe4'.encode('utf8'), '２'.encode('utf8'), b'\xff', b'2.0',
+                   b'x' * 300, [], [b'x'], [b'2'], [[2]], [b'\xff'], [{}], {}, {b'a': b'b'}, {b'\xff': 1},
+                   {b'a': {b'b': [1]}}, {b'2': 2}]
+KEY_VALUES_SECONDARY = [b'2', 2, [2], {b'major': 2}]
+KEY_LEVELS = ('top', 'info', 'file')
+
+
+def drop(md, path):
+    """copy of `md` without the entry at `path` (missing containers: unchanged)"""
+    def rec(o, path):
+        k = path[0]
+        if isinstance(k, int):
+            if not isinstance(o, list) or k >= len(o):
+                return o
+            o = list(o)
+            if len(path) == 1:
+                del o[k]
+            else:
+                o[k] = rec(o[k], path[1:])
+            return o
+        if not isinstance(o, dict) or k not in o:
+            return o
+        o = dict(o)
+        if len(path) == 1:
+            del o[k]
+        else:
+            o[k] = rec(o[k], path[1:])
+        return o
+    return rec(md, path)
+
+
+def key_contexts(full=False):
+    """[(label, metainfo, has_files)]: the valid layouts and the same with one required key removed"""
+    out = []
+    lays = {(k, f): layout(k, f) for k in ('single', 'multi') for f in (True, False)}
+    for (k, f), md in lays.items():
+        out.append((k + ('-full' if f else '-min'), md, k == 'multi'))
+    removals = {'single': [(b'info', b'pieces'), (b'info', b'name'), (b'info', b'piece length'), (b'info', b'length')],
+                'multi': [(b'info', b'pieces'), (b'info', b'name'), (b'info', b'piece length'), (b'info', b'files'),
+                          (b'info', b'files', 0, b'length'), (b'info', b'files', 0, b'path'), (b'info', b'files', 1, b'path')]}
+    for k in ('single', 'multi'):
+        for f in ((False, True) if full else (False,)):
+            for p in removals[k]:
+                out.append((k + ('-full' if f else '-min') + '-no-' + path_label(p[1:]), drop(lays[(k, f)], p),
+                            k == 'multi' and p != (b'info', b'files')))
+    # every optional field present, the piece hashes missing (what a "v2 only" torrent looks like to a v1 reader)
+    if not full:
+        for k in ('single', 'multi'):
+            out.append((k + '-full-no-pieces', drop(lays[(k, True)], (b'info', b'pieces')), k == 'multi'))
+    for k in ('single', 'multi'):
+        out.append((k + '-full-no-info', drop(lays[(k, True)], (b'info',)), False))
+    return out
+
+
+def _key_path(level, key, fi=0):
+    return {'top': (key,), 'info': (b'info', key), 'file': (b'info', b'files', fi, key)}[level]
+
+
+def _has(md, path):
+    o = md
+    for k in path:
+        if isinstance(k, int):
+            if not isinstance(o, list) or k >= len(o):
+                return False
+        elif not isinstance(o, dict) or k not in o:
+            return False
+        o = o[k]
+    return True
+
+
+# values of the companions in the "crowded" contexts: a number, a text that is also a URL, a nested mapping
+COMPANION_VALUES = {'int': 2, 'text': b'http://x.example/a', 'dict': {b'a': {b'': {b'length': 2}}}}
+CROWD_BASES = ('single-min', 'single-min-no-pieces', 'multi-min', 'multi-min-no-pieces')
+KEY_VALUES_CROWD = [b'2', [2], {b'major': 2}, 2]
+
+
+def _ser_fast(v):
+    """canonical bencoding of the small values used below (bstrict.ser formats integers digit by digit)"""
+    if isinstance(v, int):
+        return b'i%de' % v
+    if isinstance(v, bytes):
+        return b'%d:%s' % (len(v), v)
+    if isinstance(v, list):
+        return b'l' + b''.join(_ser_fast(e) for e in v) + b'e'
+    return b'd' + b''.join(_ser_fast(k) + _ser_fast(v[k]) for k in sorted(v)) + b'e'
+
+
+def crowded_contexts(primary, vocab, full=False):
+    """contexts in which the *other* harvested keys are present too: every primary key that is outside the vocabulary of
+    the model at a level (`vocab`: level -> set of keys; for the model such a key changes nothing,
+    C08_unknown_key_irrelevant) sits there with the same companion value (a number / a text / a nested mapping), in a
+    minimal layout with and without `pieces`.  A branch that is guarded by the presence or the value of one new key and
+    reads another one is reached here.  Thorough: companions at all three levels at once (top level, `info`, every file
+    entry), four base layouts; quick: companions at the level of the key under test, two base layouts.
+    -> [(label, metainfo, has_files, levels served)]"""
+    base = {c[0]: c for c in key_contexts(False)}
+    out = []
+    for b in (CROWD_BASES if full else ('single-min-no-pieces', 'multi-min')):
+        label, md, has_files = base[b]
+        for kind, cv in COMPANION_VALUES.items():
+            for levels in ([KEY_LEVELS] if full else [(lv,) for lv in KEY_LEVELS]):
+                if levels == ('file',) and not has_files:
+                    continue
+                m = md
+                for key in sorted(primary):
+                    if 'top' in levels and key not in vocab.get('top', ()) and key not in m:
+                        m = put(m, (key,), cv)
+                    if 'info' in levels and key not in vocab.get('info', ()) and key not in m[b'info']:
+                        m = put(m, (b'info', key), cv)
+                    if 'file' in levels and has_files and key not in vocab.get('file', ()):
+                        for fi, e in enumerate(m[b'info'][b'files']):
+                            if key not in e:
+                                m = put(m, (b'info', b'files', fi, key), cv)
+                out.append((label + '-crowded-' + kind + ('' if full else '@' + levels[0]), m, has_files, levels))
+    if not full:
+        # quick: companions at both levels of the single-file layouts as well (a guard at another level than the read)
+        for b in ('single-min', 'single-min-no-pieces'):
+            label, md, has_files = base[b]
+            for kind, cv in COMPANION_VALUES.items():
+                m = md
+                for key in sorted(primary):
+                    if key not in vocab.get('top', ()) and key not in m:
+                        m = put(m, (key,), cv)
+                    if key not in vocab.get('info', ()) and key not in m[b'info']:
+                        m = put(m, (b'info', key), cv)
+                out.append((label + '-crowded-' + kind + '@all', m, has_files, ('cross',)))
+    return out
+
+
+def harvested_key_cases(primary, secondary, full=False, known=(), vocab=None):
+    """every harvested key at every level x values of every bencodable type x contexts.  `known` = set of
+    (level, key) the static field matrix already sweeps with all values (they get the core values only); `vocab` =
+    the key sets of the model by level (for the crowded contexts; None: no crowded contexts).
+    Quick (`full=False`): primary keys: core values in every context, the other values in one context in rotation, four
+    values in every crowded context; secondary keys: four values in four contexts.  Thorough: the full product for the
+    primary keys (crowded contexts: core values), core values in every context for the secondary ones (crowded: two).
+    Each case carries `x_without`: the same torrent with the key absent, so that the model can be evaluated without it
+    (C08_unknown_key_irrelevant)."""
+    ctxs = key_contexts(full)
+    sec_ctx = [c for c in ctxs if c[0] in CROWD_BASES]
+    crowd = crowded_contexts(primary, vocab, full) if vocab is not None else []
+    out = []
+
+    def add(level, key, v, ctx, tier, fi=0):
+        label, md, has_files = ctx
+        if level == 'file' and not has_files:
+            return
+        if level == 'file':
+            fi = fi % len(md[b'info'][b'files'])
+        path = _key_path(level, key, fi)
+        try:
+            x = _ser_fast(put(md, path, v))
+            xw = _ser_fast(drop(md, path)) if _has(md, path) else _ser_fast(md)
+        except Exception:   # noqa
+            return
+        out.append(dict(kind='hkey/' + level + ('' if tier == 'primary' else '-secondary'), path=path_label(path),
+                        context=label, hkey=dict(level=level, key=key.hex(), tier=tier), x=x, x_without=xw))
+
+    for ki, key in enumerate(sorted(primary)):
+        for li, level in enumerate(KEY_LEVELS):
+            core = KEY_VALUES_CORE if full or (level, key) not in known else KEY_VALUES_CORE[3:7]
+            for vi, v in enumerate(core):
+                for ci, ctx in enumerate(ctxs):
+                    add(level, key, v, ctx, 'primary', fi=vi + ci)
+            for vi, v in enumerate(KEY_VALUES_MORE):
+                for ctx in (ctxs if full else [ctxs[(ki + li + vi) % len(ctxs)]]):
+                    add(level, key, v, ctx, 'primary', fi=vi)
+            for vi, v in enumerate(KEY_VALUES_CORE if full else KEY_VALUES_CROWD):
+                for ci, ctx in enumerate(crowd):
+                    if level in ctx[3] or (ctx[3] == ('cross',) and vi < 2 and level != 'file'):
+                        add(level, key, v, ctx[:3], 'primary', fi=vi + ci)
+    for ki, key in enumerate(sorted(secondary)):
+        for level in KEY_LEVELS:
+            for vi, v in enumerate(KEY_VALUES_CORE if full else KEY_VALUES_SECONDARY):
+                for ci, ctx in enumerate(ctxs + (crowd if vi in (3, 5) else []) if full else sec_ctx):
+                    add(level, key, v, ctx[:3], 'secondary', fi=vi + ci)
+    return out
+
+
+def static_key_slots():
+    """(level, key) pairs the field matrix sweeps"""
+    out = set()
+    for p in FIELDS_TOP + FIELDS_INFO + FIELDS_FILES:
+        if len(p) == 1:
+            out.add(('top', p[0]))
+        elif len(p) == 2 and p[0] == b'info' and not isinstance(p[1], int):
+            out.add(('info', p[1]))
+        elif len(p) == 4 and p[:2] == (b'info', b'files') and not isinstance(p[3], int):
+            out.add(('file', p[3]))
+    return out
+
+
 # ------------------------------------------------------------------------------ number ladder (round 3)
 # every numeric field validate() / the setters look at gets every magnitude class a conversion could
 # stumble over: machine-word borders, the 2^53 float-precision border, the float *range* border 2^1024
